@@ -12,15 +12,18 @@ import (
 // client either keeps its backend or moves to the new backend.
 func TestC06ConsistentAppend(t *testing.T) {
 	sub := lab.Sub("consistent-append", "rapid: ip_hash_consistent, start pool 1..12 (optionally after removals that reorder the pool, optionally with a stable ejected subset), "+
-		"20..120 client requests of every address class and carrier, then 1..5 appends one at a time (pool <= 17); after every append each client's backend is its previous "+
+		"20..120 client requests of every address class and carrier, then 1..5 appends one at a time (pool <= 17); backends (the appended ones too) named by a drawn scheme "+
+		"(b0.., web-1..web-10.., zero-padded, count-down, host:port, tiers, free names in a drawn order), so the appended name sorts before, between or after the existing ones; "+
+		"0..2 read-only admin / monitoring calls (listings, metrics, health; see sub-check affinity) before and after each append; after every append each client's backend is its previous "+
 		"one or the backend just appended, and is an eligible member; through lb.NextBackend or lb.ServeHTTP(L1); non-trivial = some append step starts from >=2 eligible backends")
 	sub.NontrivialFloor(0.7)
 	sub.Floor("some-client-moved", 0.5)
 	sub.Floor("ejected-present", 0.1)
 	sub.Floor("after-removals", 0.1)
+	sub.Floor("listing-around-append-of-unsorted-pool", 0.25)
 	lab.Check(t, sub, 2000, 40000, func(rt *rapid.T) {
 		n0 := rapid.IntRange(1, 12).Draw(rt, "n0")
-		p, err := newPool("ip_hash_consistent", n0)
+		p, err := newPoolWith("ip_hash_consistent", n0, poolOpts{Naming: genNaming(rt)})
 		if err != nil {
 			rt.Fatalf("harness: %v", err)
 		}
@@ -58,6 +61,18 @@ func TestC06ConsistentAppend(t *testing.T) {
 		}
 		nt, moved := false, 0
 		viol := ""
+		var observed []string
+		listedUnsorted := false
+		look := func(when string) {
+			kinds, wasUnsorted := genObservers(rt), p.unsortedNow()
+			for _, k := range kinds {
+				p.observe(k, p.ejected)
+				observed = append(observed, when+":"+observerNames[k])
+			}
+			if hasListing(kinds) && wasUnsorted {
+				listedUnsorted = true
+			}
+		}
 		startEligible := len(p.names) - len(p.ejected)
 	outer:
 		for s := 0; s < steps; s++ {
@@ -65,10 +80,12 @@ func TestC06ConsistentAppend(t *testing.T) {
 				nt = true
 			}
 			before := append([]string(nil), p.names...)
+			look(fmt.Sprintf("before-append-%d", s+1))
 			added, err := p.appendBackend()
 			if err != nil {
 				rt.Fatalf("harness: %v", err)
 			}
+			look(fmt.Sprintf("after-append-%d", s+1))
 			for i, c := range clients {
 				now, _ := p.pick(c, via)
 				if v := p.valid(now); v != "" {
@@ -76,8 +93,8 @@ func TestC06ConsistentAppend(t *testing.T) {
 					break outer
 				}
 				if now != prev[i] && now != added {
-					viol = fmt.Sprintf("append #%d: pool %v (ejected %v) + %s: the client of request %+v (address %q) moved from %s to %s, which is not the new backend",
-						s+1, before, keysOf(p.ejected), added, c, attributed(c), prev[i], now)
+					viol = fmt.Sprintf("append #%d: pool %v (ejected %v) + %s: client %q moved from %s to %s, which is not the new backend (read-only admin/monitoring calls so far: %v); its request: %+v",
+						s+1, before, keysOf(p.ejected), added, attributed(c), prev[i], now, observed, c)
 					break outer
 				}
 				if now != prev[i] {
@@ -89,10 +106,16 @@ func TestC06ConsistentAppend(t *testing.T) {
 		if moved > 0 {
 			labels = append(labels, "some-client-moved")
 		}
-		labels = append(labels, "via-"+via, fmt.Sprintf("start-eligible-%d", startEligible))
-		sub.Case(map[string]any{"n0": n0, "removed": removed, "ejected": keysOf(p.ejected), "clients": nc, "first_client": clients[0], "appends": steps, "via": via}, nt, labels...)
+		labels = append(labels, "via-"+via, fmt.Sprintf("start-eligible-%d", startEligible), "names-"+p.naming.Scheme)
+		if p.unsortedNow() {
+			labels = append(labels, "arrival-order-is-not-name-order")
+		}
+		if listedUnsorted {
+			labels = append(labels, "listing-around-append-of-unsorted-pool")
+		}
+		sub.Case(map[string]any{"naming": p.naming, "observers": observed, "n0": n0, "removed": removed, "ejected": keysOf(p.ejected), "clients": nc, "first_client": clients[0], "appends": steps, "via": via}, nt, labels...)
 		if viol != "" {
-			rt.Fatalf("ip_hash_consistent n0=%d via=%s: %s", n0, via, viol)
+			rt.Fatalf("%s", note("consistent-append", "ip_hash_consistent n0=%d via=%s: %s", n0, via, viol))
 		}
 	})
 }
